@@ -1384,6 +1384,11 @@ impl SvgElement {
             let mut parts = value.splitn(2, char::is_whitespace);
             let prefix = parts.next().expect("nonempty");
             if let Some(remain) = parts.next() {
+                // wh="#a~h #a~w" -> width="#a~h", height="#a~w"
+                let remain = remain.trim_start();
+                if remain.starts_with([ELREF_ID_PREFIX, ELREF_PREVIOUS]) {
+                    return (prefix.to_owned(), remain.to_owned());
+                }
                 let mut parts = attr_split_cycle(remain);
                 let x_suffix = parts.next().unwrap_or_default();
                 let y_suffix = parts.next().unwrap_or_default();
